@@ -14,6 +14,8 @@ def _beats(tree, cls):
     args = [a.arg for a in f.args.args]
     if args != ["self", "matching_score", "matching_threshold"]:
         raise Refuse(f"score_beats_threshold signature {args}")
+    if cls == "Metric" and ast.unparse(body[0].value) == "self.value.score_beats_threshold(matching_score, matching_threshold)":
+        return _beats(tree, "_Metric")        # the enum member delegates to the _Metric it wraps (same arguments, same order)
     env = {"self.increasing": ("(negb decr)", "bool"), "self.decreasing": ("decr", "bool"),
            "matching_score": ("s", "Q"), "matching_threshold": ("t", "Q")}
     t, ty = Tr(env).expr(body[0].value)
